@@ -82,30 +82,31 @@ macro_rules! impl_datatype_hash {
                         1u8.hash(state);
                         (b.value() as u8).hash(state);
                     }
-                    // Numerics are converted to bits using the same discriminant
+                    // Numerics are converted to bits using the same discriminant.
+                    // Adding 0.0 maps -0.0 to 0.0: the two compare equal, so they must hash equally.
                     Self::Int(v) => {
                         2u8.hash(state);
-                        (v.0 as f64).to_bits().hash(state);
+                        (v.0 as f64 + 0.0).to_bits().hash(state);
                     }
                     Self::BigInt(v) => {
                         2u8.hash(state);
-                        (v.0 as f64).to_bits().hash(state);
+                        (v.0 as f64 + 0.0).to_bits().hash(state);
                     }
                     Self::UInt(v) => {
                         2u8.hash(state);
-                        (v.0 as f64).to_bits().hash(state);
+                        (v.0 as f64 + 0.0).to_bits().hash(state);
                     }
                     Self::BigUInt(v) => {
                         2u8.hash(state);
-                        (v.0 as f64).to_bits().hash(state);
+                        (v.0 as f64 + 0.0).to_bits().hash(state);
                     }
                     Self::Float(v) => {
                         2u8.hash(state);
-                        (v.0 as f64).to_bits().hash(state);
+                        (v.0 as f64 + 0.0).to_bits().hash(state);
                     }
                     Self::Double(v) => {
                         2u8.hash(state);
-                        v.0.to_bits().hash(state);
+                        (v.0 + 0.0).to_bits().hash(state);
                     }
                     Self::Blob(b) => {
                         3u8.hash(state);
